@@ -366,3 +366,80 @@ def gen_C20(rng, tier):
             cases.append(nm(f"m{k}", [("f", text)]))
             k += 1
     return cases
+
+
+# ------------------------------------------------------------------ C01-C04: arbitrary and malformed text
+SOUP_CHARS = list("abcxyzIPE019_ \t\n\r;,{}()[]<>=.-+@\"/*#$%&'\\:?|~^`!") + \
+    ["é", "ß", "日", "😀", "\u0085", " ", " ", " ", " ", " ", "　", "\x0b", "\x0c", "\x00",
+     "١", "２", "́", "‍", "﻿"]
+INJECT = ["é", "日本", "😀", "　", " ", " ", "\u0085", "\r\n", "\t", " ", "́", "Größe", "👨‍👩‍👦"]
+
+
+def char_soup(rng, n):
+    return "".join(rng.choice(SOUP_CHARS) for _ in range(n))
+
+
+def token_soup(rng, n):
+    return " ".join(rng.choice(VOCAB) for _ in range(n))
+
+
+def inject_unicode(rng, text):
+    """insert multi-byte characters / unicode whitespace at token gaps, inside comments, docs and strings"""
+    out = []
+    i = 0
+    n = len(text)
+    while i < n:
+        c = text[i]
+        out.append(c)
+        if c in " \n\t" and rng.random() < 0.15:
+            out.append(rng.choice(["　", " ", " ", "\u0085", " ", "\r\n"]))
+        elif c == '"' and rng.random() < 0.5:
+            out.append(rng.choice(INJECT[:3]))
+        elif text.startswith("/*", i) and rng.random() < 0.7:
+            out.append("*" if text.startswith("/**", i) else "")
+        elif c == "*" and i > 0 and text[i - 1] in "/*" and rng.random() < 0.5:
+            out.append(rng.choice(INJECT))
+        i += 1
+    return "".join(out)
+
+
+def gen_malformed(rng, tier, n_quick=1500, n_thorough=20000):
+    """single-file cases: soups, mutated documents, unicode injection, truncations"""
+    cases = []
+    fixed = ["", " ", "\n", "package", "/**é*/", "package p; /**é*/ interface I {}", "package p; /** Größe der Sache */ interface I {}",
+             "package p; interface I { void f() =　9999999999; }", "package p; interface I { void f() =9999999999; }",
+             "package p; interface I { void f() = /* c */ 99999999999999999999; }",
+             "package p; interface I　{\u0085}", "package p; interface I { void f(); ", "\"", "/*", "/**", "/** */", "//",
+             "package p; parcelable P { String s = \"é\n\"; }", "package p; interface I { /**/ void f(); /***/ void g(); /** */ void h(); }",
+             "package p; enum E { A = \"x\", /** d */ B, }", "package p; interface I { void f(in  int x); }",
+             "package ١; interface I {}", "package p; parcelable P { int x = ١٢; }", "﻿package p; interface I {}",
+             "package p; interface I { void f() = 1 }", "package p; interface I { const int X = ; void g(); }",
+             "package p; interface I {} }", "package p; interface I {} interface J {}", "package p; @ interface I {}",
+             "package p; interface I { @A(x=1,) void f(@B int a, @C() in String b,); }",
+             "package p; interface I { void f(); } // trailing", "package p; interface I { void f(); } /* unterminated"]
+    for i, t in enumerate(fixed):
+        cases.append(nm(f"fixed{i}", [("f", t)]))
+    n = n_quick if tier == "quick" else n_thorough
+    for i in range(n):
+        r = rng.random()
+        if r < 0.15:
+            t = char_soup(rng, rng.choice([1, 3, 10, 40, 200]))
+        elif r < 0.3:
+            t = token_soup(rng, rng.choice([1, 3, 8, 30]))
+        else:
+            d = gen.gen_doc(rng, opts={"pdoc": 0.4})
+            toks = [x.text for x in gen.tokens(d)]
+            r2 = rng.random()
+            if r2 < 0.35:
+                toks = mutate_tokens(rng, toks)
+            t = join_tokens(toks, rng, rng.choice(["space", "min", "wild"]))
+            if r2 > 0.65:
+                t = inject_unicode(rng, t)
+            if rng.random() < 0.15:
+                cut = rng.randrange(len(t) + 1)
+                t = t[:cut]
+            if rng.random() < 0.1:
+                k = rng.randrange(len(t) + 1)
+                t = t[:k] + rng.choice(SOUP_CHARS) + t[k:]
+        cases.append(nm(f"m{i}", [("f", t)]))
+    return cases
